@@ -55,6 +55,10 @@ def gen_refine(rng, combo=None):
         s = np.array([float(rng.integers(-2, 3)), float(rng.integers(-2, 3))])
         shifts = np.tile(s, (n, 1))
         zs = s
+        if rng.integers(0, 2):
+            # shifts with different components (a per-frame reading of a constant shift would pick one component for both coordinates)
+            s = np.array([float(rng.choice([-6, -4, 5, 6])), float(rng.choice([-3, 2, 3]))])
+            shifts, zs = np.tile(s, (n, 1)), s
     else:
         shifts = rng.integers(-2, 3, size=(n, 2)).astype(float)
         if zk == 'fractional':
@@ -75,7 +79,7 @@ def gen_refine(rng, combo=None):
         idx = np.mgrid[-1:1, -2:3]
     else:
         idx = np.array([(i, j) for i in range(-3, 4) for j in range(-3, 4)])[rng.permutation(49)[:30]]
-    return dict(data=np.array(data, dtype=np.float32), zero=zero, a=a, b=b, shifts=shifts, zs=zs, zk=zk, radius=radius, search=search, indices=idx, layout=layout,
+    return dict(data=np.array(data, dtype=np.float32), zero=zero, a=a, b=b, shifts=shifts, zs=zs, zk=zk, zs_form=str(rng.choice(['array', 'tuple', 'list'])), radius=radius, search=search, indices=idx, layout=layout,
                 correlation=str(rng.choice(['fast', 'fullframe', 'sparse'])) if combo is None else combo[0],
                 match=str(rng.choice(['fast', 'affine'])) if combo is None else combo[1],
                 tolerance=float(rng.choice([0.4, 1.0, 3.0])) if combo is None or len(combo) < 4 else combo[3], parts=rand_partitions(rng, n))
@@ -88,6 +92,9 @@ def refine_failure(c):
     zs = c['zs']
     if isinstance(zs, str):
         zs = StubUDF.aux_data(c['shifts'], kind='nav', extra_shape=(2,), dtype='float64')
+    elif zs is not None and c.get('zs_form', 'array') != 'array':
+        # one (y, x) shift for all frames given as a plain tuple / list instead of an array
+        zs = tuple(float(v) for v in zs) if c['zs_form'] == 'tuple' else [float(v) for v in zs]
     corr = c['correlation']
     if corr == 'sparse' and c['zk'] != 'none':
         try:
@@ -290,12 +297,12 @@ def run(ctx):
     # every (correlation, match) combination with and without a zero shift first (sparse: only without), then random ones
     combos = [(cr, mt, zk) for cr in ('fast', 'fullframe', 'sparse') for mt in ('fast', 'affine') for zk in (('none',) if cr == 'sparse' else ('none', 'perframe'))]
     # fractional per-frame shifts with a tight matcher: the start zero of the fast match must carry the un-rounded shift
-    combos += [('fast', 'fast', 'fractional', 0.4), ('fullframe', 'fast', 'fractional', 0.4)]
+    combos += [('fast', 'fast', 'fractional', 0.4), ('fullframe', 'fast', 'fractional', 0.4), ('fast', 'fast', 'const'), ('fullframe', 'fast', 'const'), ('fast', 'fast', 'const'), ('fast', 'affine', 'const')]
     for k in range(ctx.n(24, 300)):
         c = gen_refine(rng, combos[k] if k < len(combos) else None)
         fail = refine_failure(c)
         ctx.count(len(c['data']), key=('refine', c['zero'].tolist(), c['parts'], c['zk'], c['correlation'], c['match']))
-        for nm in ('correlation', 'match', 'zk', 'layout'):
+        for nm in ('correlation', 'match', 'zk', 'layout', 'zs_form'):
             ctx.hist(nm, c[nm])
         if len(ctx.cov['samples']) < 4:
             ctx.sample({'frames': len(c['data']), 'shape': list(c['data'].shape[1:]), 'partitions': c['parts'], 'zero_shift': c['zk'], 'correlation': c['correlation'], 'match': c['match'],
@@ -322,5 +329,5 @@ def run(ctx):
                     'refined peak list is exactly frame_peaks with margin search in index order. Tie: IntegrationUDF vs UDF.integrate under vm_compute, run_refine peaks/'
                     'indices vs Lattice.frame_peaks; oracle: stored (zero, a, b, selector, error) bit-identical (float32) to the matcher applied to each frame\'s correlation '
                     'result started from zero + that frame\'s shift, dispatch table and rejection of unknown names, sparse rejects a zero shift.',
-        rule='1..6 frames rendered with cbed_frame + Poisson noise, random partitions, zero shift none/constant/per-frame/fractional, correlation fast/fullframe/sparse x match '
+        rule='1..6 frames rendered with cbed_frame + Poisson noise, random partitions, zero shift none/constant (array, tuple or list)/per-frame/fractional, correlation fast/fullframe/sparse x match '
              'fast/affine, tolerances 0.4/1/3, index layouts mgrid and (n,2); integration: 1..4 frames, per-frame integer centres incl. border/outside, 4 dtypes; exact-mask stream: bool/uint8/int16/float32 user templates on float64/int32/uint32/int64 frames with values up to 2**36, compared without tolerance.')
